@@ -8,6 +8,8 @@ HARNESSES = [dict(name="session", pkg="./pkg/session/", test="TestVerifC17", fil
                   files=[("internal/ipoe/zz_verif_c17_test.go", "harness/C17/zz_verif_c17_ipoe_test.go")]),
              dict(name="e2e", pkg="./internal/ipoe/", test="TestVerifC17E2E", timeout=900,
                   files=[("internal/ipoe/zz_verif_c17_e2e_test.go", "harness/C17/zz_verif_c17_e2e_test.go")]),
+             dict(name="e2e_race", pkg="./internal/ipoe/", test="TestVerifC17E2E", timeout=900, race=True,
+                  files=[("internal/ipoe/zz_verif_c17_e2e_test.go", "harness/C17/zz_verif_c17_e2e_test.go")]),
              dict(name="pppoe_restore", pkg="./internal/pppoe/", test="TestVerifC17Restore", timeout=600,
                   files=[("internal/pppoe/zz_verif_c17_restore_test.go", "harness/C17/zz_verif_c17_pppoe_restore_test.go")]),
              dict(name="ipoe_restore", pkg="./internal/ipoe/", test="TestVerifC17Restore", timeout=600,
@@ -44,7 +46,8 @@ RULE = ("seq: random sequential histories (1..40 ops) of Claim/Release/IsOwner/L
         "pppoe sessions, owner protocol) of the tuple is compared with the model (non-trivial: a cross-protocol takeover). "
         "ae2e: the same two real components with the terminate events HELD by a bus wrapper and released one at a time (V), PADT for "
         "the tuple's current PPPoE session (X) and a published terminate request for its IPoE session (O): random interleavings of "
-        "3..8 ops plus 0..4 draining V. "
+        "3..8 ops plus 0..4 draining V; rae2e = the same under the race detector (the real bus runs the two components' terminate "
+        "handlers of one event as concurrent goroutines); for a delivery the model accepts either handler order. "
         "rpppoe/ripoe: ownership across RESTARTS - the real pppoe (resp. ipoe) component on an in-memory opdb that survives, sessions created "
         "as the creation paths build them and checkpointed, restart = new Registry + new component + restoreSessions, the other "
         "protocol's side simulated by the harness; random N/H/X/B sequences (2..7) on 1..2 tuples, all four tuples compared after "
@@ -227,6 +230,10 @@ def gen_cases(rng, tier, budget):
     cases += E2E_FIXED + AE2E_FIXED
     for _ in range((budget // 40) if budget else (40 if quick else 500)):
         cases.append(gen_ae2e(rng))
+    # the same under the race detector: the real bus starts both components' terminate handlers as goroutines
+    cases += ["r" + c for c in AE2E_FIXED[:5]]
+    for _ in range((budget // 80) if budget else (20 if quick else 200)):
+        cases.append("r" + gen_ae2e(rng))
     for who in ("rpppoe", "ripoe"):
         cases += [who + " " + c for c in RESTORE_FIXED]
         for _ in range((budget // 40) if budget else (60 if quick else 1500)):
@@ -279,7 +286,7 @@ def gen_cases(rng, tier, budget):
 
 def route(case):
     h = case.split(" ", 1)[0]
-    return {"rconc": "session_race", "ipoe": "ipoe", "pppoe": "pppoe", "e2e": "e2e", "ae2e": "e2e", "rpppoe": "pppoe_restore",
+    return {"rconc": "session_race", "ipoe": "ipoe", "pppoe": "pppoe", "e2e": "e2e", "ae2e": "e2e", "rae2e": "e2e_race", "rpppoe": "pppoe_restore",
             "ripoe": "ipoe_restore"}.get(h, "session")
 
 
@@ -439,7 +446,7 @@ def nontrivial(case, out):
     if case.startswith(("rpppoe", "ripoe")):
         t = case.split()[1:]
         return ("B" in t and any(x[0] in "NHA" for x in t[:t.index("B")])) or any(x[0] == "A" for x in t)
-    if case.startswith("ae2e"):
+    if case.startswith(("ae2e", "rae2e")):
         t = case.split()[1:]
         return "V" in t and any(x[0] in "XO" or (x[0] in "DQSP" and i > 0) for i, x in enumerate(t[:len(t) - 1 - t[::-1].index("V")]))
     if case.startswith("e2e"):
@@ -474,9 +481,9 @@ def classify(case, impl, model):
                              "(live ipoe/pppoe sessions : owner), the specification gives %s" % (
                                  "pppoe" if case.startswith("rpppoe") else "ipoe", i, ops[i] if i < len(ops) else "?", a, b))
         return "P", "restore: %r vs %r" % (impl[:200], model[:200])
-    if case.startswith(("e2e", "ae2e")) and ("!unsettled" in impl or impl.startswith("panic no_P")):
+    if case.startswith(("e2e", "ae2e", "rae2e")) and ("!unsettled" in impl or impl.startswith("panic no_P")):
         return "G", "end-to-end run did not settle / no PADO-PADS within the harness deadline: %s" % impl[:200]
-    if case.startswith(("e2e", "ae2e")):
+    if case.startswith(("e2e", "ae2e", "rae2e")):
         it, mt, ops = impl.split(), model.split(), case.split()[1:]
         for i, (a, b) in enumerate(zip(it, mt)):
             if a != b:
@@ -517,7 +524,7 @@ def shrink(case):
     t = case.split()
     if t[0] == "wgl":
         return
-    if t[0] in ("e2e", "ae2e", "rpppoe", "ripoe"):
+    if t[0] in ("e2e", "ae2e", "rae2e", "rpppoe", "ripoe"):
         for i in range(1, len(t)):
             if len(t) > 2:
                 yield " ".join(t[:i] + t[i + 1:])
@@ -557,7 +564,7 @@ def shrink(case):
 
 
 def distribution(cases, impl):
-    d = {"ha_promotions": 0, "ae2e": 0, "ae2e_ops": 0, "ae2e_deliveries": 0, "ae2e_padt": 0, "ae2e_oper_terminate": 0,
+    d = {"ha_promotions": 0, "rae2e": 0, "ae2e_under_race_detector": 0, "ae2e": 0, "ae2e_ops": 0, "ae2e_deliveries": 0, "ae2e_padt": 0, "ae2e_oper_terminate": 0,
          "ae2e_states_with_both_protocols_live_pending_eviction": 0, "ae2e_final_states_both_protocols_live": 0,
          "rpppoe": 0, "ripoe": 0, "restarts": 0, "restored_live_sessions_own_tuple": 0, "restored_live_sessions_without_owner": 0,
          "seq": 0, "conc": 0, "rconc": 0, "ipoe": 0, "pppoe": 0, "wgl": 0, "wgl_reject": 0, "e2e": 0, "e2e_ops": 0,
@@ -575,7 +582,8 @@ def distribution(cases, impl):
         if t[0] == "wgl":
             d["wgl_reject"] += t[1] == "reject"
             continue
-        if t[0] == "ae2e":
+        if t[0] in ("ae2e", "rae2e"):
+            d["ae2e_under_race_detector"] += t[0] == "rae2e"
             ops, res = t[1:], o.split()
             d["ae2e_ops"] += len(ops)
             d["ae2e_deliveries"] += ops.count("V")
